@@ -50,19 +50,24 @@ LEVEL_NOTE = ("Trusted: Coq kernel, Go harness (script runner, seed-key derivati
               "tag assignment for the pseudo-index tables of FULLTEXT indexes (fulltext / vector / spatial indexes and foreign keys are exercised in a "
               "third repository where only the serialization round trips are observed).")
 THEOREMS = ["tag_fresh", "tag_below_reserved", "auto_tag_same_set", "tag_simple_names", "same_ddl_same_tags", "tags_distinct_partial",
-            "addcol_tag_fresh", "tags_distinct_run_partial", "no_recreate_safe", "tags_distinct_run_no_recreate", "tags_distinct_refuted",
+            "addcol_tag_fresh", "tags_distinct_run_partial", "no_recreate_safe", "tags_distinct_run_no_recreate", "tags_distinct_refuted", "commit_placement_refuted",
             "schema_roundtrip", "fk_roundtrip", "sschema_eqb_eq", "oracle_a_on_model", "oracle_b_on_model", "oracle_c_on_model_partial",
             "oracle_on_model_partial", "reserved_tag_min_pinned"]
 EXPLANATION = ("Open findings replayed on every run (known_findings.json, witnesses in known_witness_cases with a passing control each): spurious schema "
                "conflicts / merge errors between branches that ran the same DDL (CHECK on a column with upper-case letters; two indexes over the same "
                "columns; keyless table with ON UPDATE and no DEFAULT), a generated expression stored with an unquoted table qualifier after CREATE INDEX, "
-               "and the implementation replay of tags_distinct_refuted (duplicate tag after DROP TABLE / ADD COLUMN / re-CREATE).")
-REFUTED = ["tags_distinct_refuted"]
+               "the implementation replay of tags_distinct_refuted (duplicate tag after DROP TABLE / ADD COLUMN / re-CREATE), and the implementation replay "
+               "of commit_placement_refuted (a re-created table whose kept columns change seed position gets other tags when a commit separates DROP and "
+               "CREATE; the class where the kept columns are a prefix of both definitions is required to be commit-independent by oracle clause (d)).")
+REFUTED = ["tags_distinct_refuted", "commit_placement_refuted"]
 RULE = ("DDL scripts: 1-3 CREATE TABLE (2-7 columns over every reachable typeinfo family with parameters, NOT NULL / DEFAULT / COMMENT / ON UPDATE / "
         "AUTO_INCREMENT / generated columns / column collations, multi-column primary keys in non-declaration order or keyless, secondary / unique / "
         "prefix indexes, named and unnamed checks, table collation and comment; table-name twins such as t1 / T_1 that share a tag seed so that "
         "collisions are the norm), then ALTERs (ADD COLUMN FIRST/AFTER, DROP, RENAME, MODIFY across kinds, CREATE INDEX, ADD CHECK), commits, DROP TABLE + "
-        "re-CREATE with shared columns; 0-4 more statements run on both branches and in the second repository; in 45% of the cases an extra script in a "
+        "re-CREATE with shared columns; 0-4 more statements run on both branches and in the second repository; in 40% of the cases the scenario \"same "
+        "statements, different commit placement\" (a committed table is dropped and re-created with >= 1 column kept, >= 1 omitted, >= 1 added: in one "
+        "working set on branch x, with a commit in between on branch y and in an independent repository, and alone in an empty repository; tags "
+        "compared column by column, x merged into y); in 45% of the cases an extra script in a "
         "third repository (foreign keys with actions, composite, self-referencing and unresolved; FULLTEXT, VECTOR and SPATIAL indexes; index comments) "
         "whose schemas and foreign key collection go through the real serializers; non-trivial = at least one table "
         "stored and one tag drawn; distinct by script text")
@@ -72,7 +77,7 @@ REQUIRED_TAGS = ["tag-collision", "head-reuse", "addcol", "addcol-positioned", "
                  "index", "unique-index", "prefix-index", "check", "default", "generated", "on-update", "comment", "table-collation", "col-collation",
                  "merge-clean", "branch-ddl", "ty-decimal", "ty-enum", "ty-set", "ty-json", "ty-geometry", "ty-bit", "ty-year", "ty-datetime-fsp",
                  "ty-blob", "ty-text", "ty-unsigned", "ty-float", "autoinc", "fulltext-index", "vector-index", "spatial-index", "index-comment",
-                 "system-index", "foreign-key", "fk-unresolved", "fk-actions", "fk-composite"]
+                 "system-index", "foreign-key", "fk-unresolved", "fk-actions", "fk-composite", "same-ddl-different-commit-placement-recreate"]
 
 # (sql type, class, tag)
 TYPES = [
@@ -302,10 +307,57 @@ def gen_extra(rng):
     return q
 
 
+RC_TYPES = ["int", "bigint", "varchar(20)", "text", "double", "decimal(10,2)", "datetime", "blob", "json", "int unsigned"]
+
+
+def mk_recreate(tname, old, new, other=None):
+    """old/new: lists of (column name, sql type).  Base = the old table committed; route x = DROP + CREATE in one working set;
+    route y = the same two statements with a commit in between; fresh = the CREATE alone in an empty repository."""
+    def create(cols):
+        return {"op": "create", "table": tname, "q": "create table %s (%s)" % (bq(tname), ", ".join("%s %s" % (bq(n), t) for n, t in cols))}
+    drop = {"op": "droptable", "table": tname, "q": "drop table %s" % bq(tname)}
+    commit = {"op": "commit", "q": "call dolt_commit('-Am','between')"}
+    base = [create(old)]
+    if other:
+        base.append({"op": "create", "table": other[0], "q": "create table %s (%s)" % (bq(other[0]), ", ".join("%s %s" % (bq(n), t) for n, t in other[1]))})
+    return {"base": base, "x": [drop, create(new)], "y": [drop, commit, create(new)], "fresh": [create(new)], "old": [list(c) for c in old], "new": [list(c) for c in new]}
+
+
+def prefix_preserving(rc):
+    """the kept columns are a prefix of the old definition and, in the same order, a prefix of the new one: every column then has the same seed
+    (kinds of the columns before it) whether its tag is re-used from HEAD or drawn afresh"""
+    old, new = [tuple(c) for c in rc.get("old", [])], [tuple(c) for c in rc.get("new", [])]
+    kept = [c for c in new if c in old]
+    k = len(kept)
+    return bool(k and old[:k] == kept and new[:k] == kept)
+
+
+def gen_recreate(rng):
+    names = rng.sample(COLNAMES, rng.randint(3, 7))
+    nkeep = rng.randint(1, len(names) - 2)
+    nomit = rng.randint(1, len(names) - nkeep - 1)
+    keep, omit, add = names[:nkeep], names[nkeep:nkeep + nomit], names[nkeep + nomit:]
+    ty = {n: rng.choice(RC_TYPES) for n in names}
+    old = [(n, ty[n]) for n in keep + omit]
+    new = [(n, ty[n]) for n in keep]
+    if rng.random() < 0.6:
+        new += [(n, ty[n]) for n in add]           # kept columns stay a prefix: the class in which the tags must not depend on the commit
+    else:
+        rng.shuffle(old)
+        for n in add:
+            new.insert(rng.randint(0, len(new)), (n, ty[n]))
+    other = None
+    if rng.random() < 0.4:
+        other = (rng.choice(["other_tbl", "zz9", "side"]), [(n, rng.choice(RC_TYPES)) for n in rng.sample(COLNAMES, 2)])
+    return mk_recreate(rng.choice(["t", "r1", "Re Created", "imp"]), old, new, other)
+
+
 def gen_one(rng):
     c = gen_one_tags(rng)
     if rng.random() < 0.45:
         c["extra"] = gen_extra(rng)
+    if rng.random() < 0.4:
+        c["recreate"] = gen_recreate(rng)
     return c
 
 
@@ -406,7 +458,13 @@ def fixed_cases():
         "create table sp (id int primary key, g point not null srid 0, spatial key sg (g))",
         "set foreign_key_checks=0",
         "create table c2 (id int primary key, x int, constraint fku foreign key (x) references nope(y))"]}
-    return [c1, c2, c3] + known_witness_cases()
+    # the same statements with the commit placed differently (seeded/C37-1: README's example)
+    c4 = {"main": [], "branch": [], "recreate": mk_recreate(
+        "t", [("a", "int"), ("b", "int"), ("x", "varchar(20)")], [("a", "int"), ("b", "int"), ("c", "int")])}
+    # open finding tags:recreate-tags-depend-on-commit-placement: the new column comes first, so the kept column a moves to another seed position
+    c5 = {"main": [], "branch": [], "recreate": mk_recreate(
+        "t", [("a", "int"), ("x", "varchar(20)")], [("n", "int"), ("a", "int")])}
+    return [c1, c2, c3, c4, c5] + known_witness_cases()
 
 
 def known_witness_cases():
@@ -453,7 +511,7 @@ def known_witness_cases():
 
 
 def gen_cases(rng, tier):
-    n = 80 if tier == "quick" else 3000
+    n = 70 if tier == "quick" else 3000
     cases = fixed_cases()
     seen = set()
     while len(cases) < n:
@@ -537,8 +595,9 @@ def cq_schema(f):
         cols, cq_list("%d%%nat" % p for p in f["pkord"]), idx, chk, f["coll"], B(f["comment"]), f["rowsize"])
 
 
-BAD = ("({| i_main := []; i_branch := []; i_cands := []; i_schemas := []; i_fks := [] |}, {| o_states := []; o_b2 := []; o_envb := []; o_merged := []; "
-       "o_merge := 9; o_back := []; o_flags := [false]; o_fks_back := []; o_fkflags := [] |})")
+BAD = ("({| i_main := []; i_branch := []; i_cands := []; i_schemas := []; i_fks := []; i_rc_base := []; i_rc_x := []; i_rc_y := []; i_rc_fresh := [] |}, "
+       "{| o_states := []; o_b2 := []; o_envb := []; o_merged := []; "
+       "o_merge := 9; o_back := []; o_flags := [false]; o_fks_back := []; o_fkflags := []; o_rc_x := []; o_rc_y := []; o_rc_yrepo := []; o_rc_fresh := []; o_rc_merge := 9 |})")
 
 
 def merge_class(o):
@@ -586,13 +645,29 @@ def coq_case(case, out):
     keep = [i for i, d in enumerate(ddls) if d != "(Commit, false)" or i == nm - 1 or i == len(ddls) - 1]
     cands = cq_list("((%s, %s, %s, %d), %s)" % (B(c["table"]), B(c["col"]), cq_list(str(k) for k in c["kinds"]), c["kind"], cq_list(str(x) for x in c["seq"]))
                     for c in o["cands"])
-    inp = "{| i_main := %s; i_branch := %s; i_cands := %s; i_schemas := %s; i_fks := %s |}" % (
+    rc, rco = case.get("recreate"), o.get("rc")
+    rcd = {}
+    for part in ("base", "x", "y", "fresh"):
+        if rc and rco and len(rco[part]) == len(rc[part]):
+            rcd[part] = cq_list(cq_ddl(st, so) for st, so in zip(rc[part], rco[part]))
+        else:
+            rcd[part] = "[]"
+    inp = "{| i_main := %s; i_branch := %s; i_cands := %s; i_schemas := %s; i_fks := %s; i_rc_base := %s; i_rc_x := %s; i_rc_y := %s; i_rc_fresh := %s |}" % (
         cq_list(ddls[i] for i in keep if i < nm), cq_list(ddls[i] for i in keep if i >= nm), cands, cq_list(cq_schema(r["stored"]) for r in o["rt"]),
-        cq_list(cq_fks(f["stored"]) for f in o["fks"]))
+        cq_list(cq_fks(f["stored"]) for f in o["fks"]), rcd["base"], rcd["x"], rcd["y"], rcd["fresh"])
     # a statement the implementation accepts on b1 must be accepted on b2 and in repository B as well (and vice versa)
     errs_a = [so["err"] != "" for so in o["steps"]]
     same_acc = ([e != "" for e in o["b2errs"]] == errs_a[nm:]) and ([e != "" for e in o["envberrs"]] == errs_a)
-    obs = "{| o_states := %s; o_b2 := %s; o_envb := %s; o_merged := %s; o_merge := %d; o_back := %s; o_flags := %s; o_fks_back := %s; o_fkflags := %s |}" % (
+    if rc and rco:
+        # the y route must be accepted / rejected the same way on the branch and in the independent repository, and the merged branch = both
+        same = [e != "" for e in rco["yrepoerrs"]] == [so["err"] != "" for so in rco["y"]] and rco["merged"] == rco["yt"]
+        rcobs = "o_rc_x := %s; o_rc_y := %s; o_rc_yrepo := %s; o_rc_fresh := %s; o_rc_merge := %d" % (
+            cq_root(rco["xt"]), cq_root(rco["yt"]), cq_root(rco["yrepot"]), cq_root(rco["fresht"]),
+            merge_class({"merge": rco["merge"], "schconf": rco["schconf"]}) if same else 3)
+    else:
+        rcobs = "o_rc_x := []; o_rc_y := []; o_rc_yrepo := []; o_rc_fresh := []; o_rc_merge := %d" % (9 if rc else 0)
+    obs = "{| o_states := %s; o_b2 := %s; o_envb := %s; o_merged := %s; o_merge := %d; o_back := %s; o_flags := %s; o_fks_back := %s; o_fkflags := %s; " + rcobs.replace("%", "%%") + " |}"
+    obs = obs % (
         cq_list(cq_root(o["steps"][i]["after"]) for i in keep), cq_root(o["b2"]), cq_root(o["envb"]), cq_root(o["merged"]),
         merge_class(o) if same_acc else 3,
         cq_list(("None" if r["err"] else "(Some %s)" % cq_schema(r["back"])) for r in o["rt"]),
@@ -695,6 +770,18 @@ def classify(case, out):
                 t.add("fk-composite")
     if any(e for e in o.get("extraerr", [])):
         t.add("extra-rejected")
+    rc, rco = case.get("recreate"), o.get("rc")
+    if rc and rco:
+        if all(so["err"] == "" for part in ("base", "x", "y", "fresh") for so in rco[part]) and prefix_preserving(rc):
+            t.add("same-ddl-different-commit-placement-recreate")
+        elif not prefix_preserving(rc):
+            t.add("recreate-reordered")
+        else:
+            t.add("recreate-rejected")
+        if rco["xt"] != rco["yt"] or rco["xt"] != rco["yrepot"]:
+            t.add("recreate-tags-differ")
+        if merge_class({"merge": rco["merge"], "schconf": rco["schconf"]}) != 0:
+            t.add("recreate-merge-not-clean")
     mc = merge_class(o)
     t.add(["merge-clean", "merge-conflict", "merge-error"][mc])
     if not all(rt_flag(o, r) for r in o["rt"]):
@@ -704,10 +791,25 @@ def classify(case, out):
 
 def nontrivial(case, out):
     o = out.get("obs")
-    return bool(o and o.get("rt") and o.get("cands"))
+    return bool(o and o.get("cands") and (o.get("rt") or o.get("rc")))
 
 
 def shrink_candidates(case):
+    # whole parts first
+    if case.get("recreate") and (case["main"] or case["branch"] or case.get("extra")):
+        yield {"main": [], "branch": [], "recreate": copy.deepcopy(case["recreate"])}
+    if case.get("recreate") and (case["main"] or case["branch"]):
+        c = copy.deepcopy(case)
+        del c["recreate"]
+        yield c
+    if case.get("recreate") and len(case["recreate"]["base"]) > 1:
+        c = copy.deepcopy(case)
+        c["recreate"]["base"] = c["recreate"]["base"][:1]
+        yield c
+    if case["branch"]:
+        c = copy.deepcopy(case)
+        c["branch"] = []
+        yield c
     if case.get("extra"):
         c = copy.deepcopy(case)
         del c["extra"]
@@ -845,8 +947,28 @@ def _dup_tag_after_recreate(case, out):
     return found
 
 
+def _recreate_reordered(case, out):
+    """the main scenario is fine; the only complaint is that the re-created table got other tags (and a schema conflict) on the route with a
+    commit between DROP and CREATE, and the new definition moves a kept column to another seed position (not prefix-preserving)"""
+    o = out.get("obs")
+    rc = case.get("recreate")
+    if not o or not rc or not o.get("rc") or prefix_preserving(rc):
+        return False
+    if not _all_else_fine(o, 0):
+        return False
+    ro = o["rc"]
+    if any(so["err"] for part in ("base", "x", "y", "fresh") for so in ro[part]) or any(ro["yrepoerrs"]):
+        return False
+    # the two executions of the y route agree with each other and with the fresh repository
+    if ro["yt"] != ro["yrepot"] or any(t not in ro["yt"] for t in ro["fresht"]):
+        return False
+    return ro["xt"] != ro["yt"]
+
+
 def match_known(finding, case, out):
     k = finding.get("key")
+    if k == "tags:recreate-tags-depend-on-commit-placement":
+        return _recreate_reordered(case, out)
     if k == "merge:check-on-uppercase-column-spurious-schema-conflict":
         return _upper_check_conflict(case, out)
     if k == "merge:duplicate-index-column-set-spurious-schema-conflict":
